@@ -11,6 +11,23 @@ A8 = "A8 Kani 0.68 MIR->goto translation, CBMC 6.11 + CaDiCaL, Verus 0.2026.09.1
 A9 = "A9 default cargo features only (deflate), as the pinned test command builds"
 
 PROPS = {
+    "C01": {
+        "level": "proof",
+        "design_ref": "DESIGN.md §3 C01",
+        "technique": "Kani contract harnesses: real Serialize/Deserialize impls through the real datum (de)serializer per node kind, all values; per-cell encode/decode contracts against the executable spec; Verus composition lemma",
+        "level_text": "Deductive proof per node kind that decode(encode(v)) == v for EVERY value of the kind's domain (all i64/i32, every f32/f64 bit pattern, all duration triples, "
+                      "Option over both branch orders), through serde's own impls for the Rust types and the repository's real (de)serializer; plus the encode-side and decode-side "
+                      "cell contracts of C02/C03 against an independent specification, whose composition (spec decode inverts spec encode; structural induction over schemas) is a "
+                      "Verus lemma. Length-bounded kinds (bytes/string/arrays) are bounded stand-ins and labelled so.",
+        "level_note": "Composite schemas are covered compositionally, not end-to-end: records via C13's harness, arrays/maps via the block step contracts, unions with an explicitly given "
+                      "type-directed table (PerTypeLookup::new and all name lookups are HashMap-based, A2); user types' derive output is trusted (A3); decimals with non-zero scale enter rust_decimal (A3).",
+        "assumptions": [A1, A2, A3, A4, A6, A7, A8],
+        "explanation": "Round-trip harnesses: long, int, double, float, boolean, date, timestamp-micros, duration, Option<long> (both branch orders), bytes/fixed (bounded); plus every harness of the "
+                       "ser_cells and de_cells units tagged C01 (encode-side: conforming values must serialize; decode-side: typed decode equals the spec value, borrowed str/bytes point into the input).",
+        "not_decided": ["recursive / deeply nested schemas end-to-end (covered by induction over the per-kind contracts, not executed)",
+                        "name-directed union selection, enum by symbol name, records by field name (HashMap, A2)",
+                        "decimals with non-zero scale and str/f64 presentations (rust_decimal, A3); decimal decode (read_decimal) not tractable under CBMC"],
+    },
     "C02": {
         "level": "proof",
         "design_ref": "DESIGN.md §3 C02",
@@ -43,6 +60,21 @@ PROPS = {
         "not_decided": ["over-long (non-minimal) varints are accepted for in-range values: the property's list of invalid inputs does not include them",
                         "decimal decode (read_decimal) only for the integer-hinted scale-0 path; rust_decimal formatting is trusted (A3)"],
     },
+    "C04": {
+        "level": "proof",
+        "design_ref": "DESIGN.md §3 C04",
+        "technique": "Kani safety contracts (no panic / overflow / out-of-bounds as built-in obligations) on every decode primitive over all byte strings it can examine, plus limit contracts (depth budget, max_seq_size, max_alloc_size) as inductive step obligations",
+        "level_text": "Deductive proof, for every byte string of the maximal length each decoding primitive can examine, that it returns Ok or Err with Kani's panic, arithmetic-overflow, "
+                      "out-of-bounds and invalid-pointer checks as obligations (never panics, never reads outside its input); hostile lengths/counts (i64::MIN, 2^62, usize::MAX) are in the "
+                      "domain. Limits: AllowedDepth::dec strictly decreases (all usize), every descent site fails at budget 0, BlockReader::has_more never lets the running element count "
+                      "exceed max_seq_size from ANY state (inductive), ReaderRead::read_slice never grows its scratch beyond max_alloc_size.",
+        "level_note": "Not expressible as a contract here: 'the slice path performs no heap allocation' (no allocator observer), stack bytes, wall-clock; termination is shown only as "
+                      "'every loop finishes within its unwinding bound on the explored inputs'. check_for_cycles is under C19. A1 A4 A6 A8.",
+        "assumptions": [A1, A3, A4, A6, A7, A8],
+        "explanation": "Safety obligations are the built-in CBMC checks of every harness of units read_prims, de_blocks, de_cells, depth (several thousand checks per run, see cbmc_checks_total).",
+        "not_decided": ["allocation-freedom of the slice path", "stack depth in bytes", "global running time bounds",
+                        "composite nodes end-to-end on arbitrary bytes (covered per primitive / per step, composed by A6)"],
+    },
     "C08": {
         "level": "proof",
         "design_ref": "DESIGN.md §3 C08",
@@ -74,6 +106,20 @@ PROPS = {
                        "between the two real implementations, plus the single-object reader entry point.",
         "not_decided": ["lifting primitive equivalence to whole-datum equivalence (parametricity, A6)",
                         "Take / into_left_after_take sub-readers are covered under C17"],
+    },
+    "C12": {
+        "level": "proof",
+        "design_ref": "DESIGN.md §3 C12",
+        "technique": "relational Kani contract harnesses: deserialize_ignored_any vs deserialize_any on the same bytes per node kind; one-step contract of the block-skipping loop; skip_bytes contracts",
+        "level_text": "Deductive proof per node kind that whenever reading a value succeeds, ignoring it succeeds and advances the input by exactly the same number of bytes: complete for the "
+                      "varint fast paths (int/long read as u32/u64 without zig-zag: every byte string up to 11 bytes, so i32::MIN/i64::MIN are covered), bool, float, double, duration, fixed, "
+                      "logical int/long types; bounded for length-delimited kinds; the size-prefixed block jump of read_block_len(ignored) and skip_bytes are step contracts.",
+        "level_note": "Arrays/maps: the skip loop is verified for <= 2 size-prefixed blocks per call with one-byte headers (bounded, labelled) plus the hostile-size contract; "
+                      "union branch ignored through unit_variant delegates to deserialize_ignored_any of the branch node (covered per kind). A1 A4 A6 A8.",
+        "assumptions": [A1, A4, A6, A7, A8],
+        "explanation": "Harnesses: c12_skip_varint_nodes, c12_skip_fixed_size_nodes, c12_skip_length_delimited_nodes, c12_read_block_len_ignored_step, c04_read_block_len_ignored_hostile_size, "
+                       "c12_skip_bytes_slice, c11_skip_bytes, c11_varint_u64/u32 (reader/slice equivalence of the skip decoders).",
+        "not_decided": ["nested containers skipped element-wise end-to-end (composition of the per-kind contracts)", "more than two size-prefixed blocks per skip call"],
     },
     "C13": {
         "level": "other",
